@@ -104,12 +104,12 @@ Section Msg.
 
   (* PeerCodec::try_parse on the receive buffer *)
   Definition try_parse (p : profile) (cd : codec) (src : list N) : dres pmsg notif :=
-    if len src <? 19 then DNeed else
+    if len src <? 19 then DNeed src else
     match nth_error src 16, nth_error src 17 with
     | Some b16, Some b17 =>
       let mlen := be16 b16 b17 in
       if (mlen <? 19) || (max_len cd <? mlen) then DErr (mkn 1 2 [b16; b17]) src else
-      if len src <? mlen then DNeed else
+      if len src <? mlen then DNeed src else
       let frame := firstn (nat_of mlen) src in               (* src.split_to(message_len) *)
       let rest := skipn (nat_of mlen) src in
       match parse_message p cd frame with
